@@ -18,6 +18,11 @@ DOMAIN = {
     "g": [None, "6c0e37e3-e856-45ee-bd58-484b11882c67", "00000000-0000-0000-0000-000000000001"],
     "dd": [None, dt.date(2020, 1, 1), dt.date(2019, 12, 31), dt.date(2021, 6, 15)],
     "m": [None, 100.12, 0.3, -1.5, 7.25, 999.99, 0.0],
+    # an interval column (ORM backends only): small values, both signs, and values of ~411 years
+    # that differ by one microsecond (beyond what a double holds in seconds)
+    "iv": [None, dt.timedelta(0), dt.timedelta(days=1), dt.timedelta(days=1, hours=2), dt.timedelta(days=-2),
+           dt.timedelta(milliseconds=500), dt.timedelta(days=150000), dt.timedelta(days=150000, microseconds=1),
+           dt.timedelta(days=150000, microseconds=2), dt.timedelta(days=-150000, microseconds=-1)],
 }
 # machine-number rows: Int64 extremes and non-dyadic fractions, where regrouping or
 # reordering arithmetic changes the result although no intermediate value of the source
@@ -29,8 +34,9 @@ BOUNDARY = dict(DOMAIN, **{
     "f": [0.1, 0.2, 0.3, 0.7, 1e16, -0.1],
 })
 DEFAULT = {"a": 1, "b": 2, "c": None, "s": "ab", "u": "b", "d": dt.datetime(2020, 1, 1),
-           "flag": True, "f": 2.5, "g": None, "dd": dt.date(2020, 1, 1), "m": 7.25}
-COLS = ["a", "b", "c", "s", "u", "d", "flag", "f", "g", "dd", "m"]
+           "flag": True, "f": 2.5, "g": None, "dd": dt.date(2020, 1, 1), "m": 7.25,
+           "iv": dt.timedelta(days=1)}
+COLS = ["a", "b", "c", "s", "u", "d", "flag", "f", "g", "dd", "m", "iv"]
 
 
 def rows_for(cols, rng, cap=400, domain=None):
